@@ -10,6 +10,8 @@ import DltVerif.Model.Fixed
 import DltVerif.Spec.Layout
 import DltVerif.Spec.NonVerbose
 import DltVerif.Spec.WF
+import DltVerif.Spec.Reader
+import DltVerif.Spec.Stats
 
 namespace Dlt.Ops
 open Dlt.Wire
@@ -243,6 +245,118 @@ def pSpecConstruct : Option (List Argument) → String
   | some as => s!"OK {as.length}" ++ String.join (as.map fun a => " " ++ pArgument a)
   | none => "ERR"
 
+def step : P Step := do
+  let t ← tok
+  match t.toList with
+  | ['s'] => pure .stall
+  | 'c' :: ds =>
+    match (String.ofList ds).toNat? with
+    | some k => pure (.chunk k)
+    | none => throw s!"bad step {t}"
+  | _ => throw s!"bad step {t}"
+
+def pDelivered : Delivered → String
+  | .parsed pm => s!"P {pParsed pm}"
+  | .error (.incomplete _) => "E INCOMPLETE"
+  | .error .hickup => "E HICKUP"
+  | .error .unrecoverable => "E UNRECOVERABLE"
+  | .error .panic => "PANIC"
+
+def pDeliveredList (l : List Delivered) : String :=
+  String.join (l.map fun d => pDelivered d ++ " ; ") ++ "EOS"
+
+def readReq : P (Bool × Option ProcessedFilter × List Step × Bytes) := do
+  let w ← bool
+  let f ← opt filter
+  let n ← nat
+  let st ← many step n
+  let b ← bytes
+  pure (w, f, st, b)
+
+-- statistics (C10) ---------------------------------------------------------------
+
+def bytesLt : Bytes → Bytes → Bool
+  | [], [] => false
+  | [], _ :: _ => true
+  | _ :: _, [] => false
+  | a :: as, b :: bs => if a.toNat < b.toNat then true else if a.toNat > b.toNat then false else bytesLt as bs
+
+def insertSorted {α : Type} (x : Bytes × α) : List (Bytes × α) → List (Bytes × α)
+  | [] => [x]
+  | y :: ys => if bytesLt x.1 y.1 then x :: y :: ys else y :: insertSorted x ys
+
+def sortByKey {α : Type} (l : List (Bytes × α)) : List (Bytes × α) := l.foldl (fun acc x => insertSorted x acc) []
+
+def pDist (d : LevelDistribution) : String :=
+  s!"{d.nonLog},{d.logFatal},{d.logError},{d.logWarning},{d.logInfo},{d.logDebug},{d.logVerbose},{d.logInvalid}"
+
+def pIdMap (m : IdMap) : String :=
+  s!"{m.length}" ++ String.join ((sortByKey m).map fun e => s!" {pBytes e.1}:{pDist e.2}")
+
+def pInfo (i : StatisticInfo) : String :=
+  s!"E {pIdMap i.ecuIds} A {pIdMap i.appIds} C {pIdMap i.contextIds} nv={pBool i.containedNonVerbose}"
+
+def splitLens : List Nat → Bytes → List Bytes
+  | [], _ => []
+  | n :: ns, bs => bs.take n :: splitLens ns (bs.drop n)
+
+/-- postfix merge expression: a number pushes that part's statistics, `n` pushes
+    `StatisticInfo::new()`, `m` pops b then a and pushes `a.merge(b)` -/
+def evalTree (parts : List StatisticInfo) : List String → List StatisticInfo → Option StatisticInfo
+  | [], [x] => some x
+  | [], _ => none
+  | "m" :: ts, b :: a :: st => evalTree parts ts (a.merge b :: st)
+  | "m" :: _, _ => none
+  | "n" :: ts, st => evalTree parts ts ({} :: st)
+  | t :: ts, st =>
+    match t.toNat? with
+    | some i => (match parts[i]? with | some p => evalTree parts ts (p :: st) | none => none)
+    | none => none
+
+def dedupKeys (l : List Bytes) : List Bytes :=
+  l.foldl (fun acc x => if acc.contains x then acc else acc ++ [x]) []
+
+def specMap (k : Spec.Keying) (sts : List Statistic) : IdMap :=
+  let keys := dedupKeys (sts.filterMap (Spec.keyOf k))
+  keys.map fun id =>
+    (id, { nonLog := Spec.tally k sts id .nonLog, logFatal := Spec.tally k sts id .fatal
+           logError := Spec.tally k sts id .error, logWarning := Spec.tally k sts id .warning
+           logInfo := Spec.tally k sts id .info, logDebug := Spec.tally k sts id .debug
+           logVerbose := Spec.tally k sts id .verbose, logInvalid := Spec.tally k sts id .invalid })
+
+def specInfo (sts : List Statistic) : StatisticInfo :=
+  { ecuIds := specMap .ecu sts, appIds := specMap .app sts, contextIds := specMap .ctx sts
+    containedNonVerbose := Spec.anyNonVerbose sts }
+
+def stats (w : Bool) (lens : List Nat) (tree : List String) (bs : Bytes) : String :=
+  let parts := (splitLens lens bs).map (visit w)
+  let model :=
+    if parts.any Option.isNone then "ERR"
+    else
+      match evalTree (parts.map fun p => collectInfo (p.getD [])) tree [] with
+      | some i => pInfo i
+      | none => "BADTREE"
+  let spec := match visit w bs with
+    | some sts => pInfo (specInfo sts) ++ s!" n={sts.length}"
+    | none => "ERR"
+  model ++ " @@ spec=" ++ spec
+
+/-- C09: unfiltered parse vs filtered parse; the Spec decides from the numeric config -/
+def filt (w : Bool) (cfg : Spec.FilterConfig) (bs : Bytes) : String :=
+  let plain := dltMessage bs none w
+  let filtered := dltMessage bs (some (processFilter cfg)) w
+  let same := match plain, filtered with
+    | .ok (.item m, r), .ok (.item m', r') => pBool (m == m' && r.length == r'.length)
+    | .ok (_, r), .ok (_, r') => pBool (r.length == r'.length)
+    | _, _ => "na"
+  let spec := match plain with
+    | .ok (.item m, _) =>
+      if Spec.drops cfg m.extendedHeader m.header.ecuId
+      then s!"ITEM -> FILTERED:{m.header.payloadLength.toNat} same=1"
+      else "ITEM -> ITEM same=1"
+    | _ => "na"
+  s!"{pClass plain} -> {pClass filtered} same={same} @@ spec={spec}"
+
 def dispatch (op : String) (args : List String) : Except String String :=
   match op with
   | "FROMMS" => do let n ← run nat args; pure (pTime (fromMs n))
@@ -288,6 +402,20 @@ def dispatch (op : String) (args : List String) : Except String String :=
   | "ADDSH" => do
     let (m, s, us) ← run (do let m ← message; let s ← bv 32; let us ← bv 32; pure (m, s, us)) args
     pure (addSh m s us)
+  | "READ" => do
+    let (w, f, st, bs) ← run readReq args
+    pure (pDeliveredList (readAll st w f bs) ++ " @@ spec=" ++ pDeliveredList (Spec.readStream w f bs))
+  | "AREAD" => do
+    let (w, f, st, bs) ← run readReq args
+    pure (pDeliveredList (readAllAsync st w f bs) ++ " @@ spec=" ++ pDeliveredList (Spec.readStream w f bs))
+  | "FILT" => do
+    let (w, c, bs) ← run (do let w ← bool; let c ← filterConfig; let b ← bytes; pure (w, c, b)) args
+    pure (filt w c bs)
+  | "STATS" => do
+    let (w, lens, tree, bs) ← run (do
+      let w ← bool; let k ← nat; let lens ← many nat k; let nt ← nat; let tree ← many tok nt
+      let b ← bytes; pure (w, lens, tree, b)) args
+    pure (stats w lens tree bs)
   | _ => .error s!"unknown op {op}"
 
 def handleLine (line : String) : String :=
